@@ -264,14 +264,36 @@ class ProbeSimulator(Simulator):
     def _states(self):
         return (self._flag(), tuple(m.is_running for m in self.markets))
 
+    @staticmethod
+    def _ofields(order):
+        return {"buy": order.is_buy, "kind": order.kind.name, "price": order.price,
+                "vol": order.volume, "ttl": order.ttl, "market": order.market_id,
+                "agent": order.agent_id}
+
+    def _funds(self, t):
+        out = {}
+        for m in self.markets:
+            try:
+                out[m.market_id] = m.get_fundamental_price(t)
+            except Exception:
+                out[m.market_id] = None
+        return out
+
     def _trigger_event_before_order(self, order):
-        t = self.id2market[order.market_id].get_time()
+        mk = self.id2market[order.market_id]
+        t = mk.get_time()
         REC.add("hook", "order_before", REC.ref_of(order), t, order.market_id)
+        try:
+            ref0 = mk.get_market_price(0)
+        except Exception:
+            ref0 = None
+        REC.add("order.pre", REC.ref_of(order), self._ofields(order), mk.get_market_price(), t, ref0)
         REC.depth += 1
         try:
             super()._trigger_event_before_order(order)
         finally:
             REC.depth -= 1
+        REC.add("order.post", REC.ref_of(order), self._ofields(order))
 
     def _trigger_event_after_order(self, order_log):
         REC.add("hook", "order_after", order_log, order_log.time, order_log.market_id)
@@ -300,8 +322,10 @@ class ProbeSimulator(Simulator):
 
     def _trigger_event_after_execution(self, execution_log):
         before = self._states()
+        mk = self.id2market[execution_log.market_id]
         REC.add("hook", "execution_after", REC.fill_ref(execution_log), execution_log.time,
                 execution_log.market_id)
+        REC.add("exec.pre", REC.fill_ref(execution_log), mk.get_market_price(0), mk.get_market_price())
         REC.depth += 1
         try:
             super()._trigger_event_after_execution(execution_log)
@@ -329,13 +353,16 @@ class ProbeSimulator(Simulator):
 
     def _trigger_event_before_step_for_market(self, market):
         before = self._states()
-        REC.add("hook", "market_before", market.market_id, market.get_time(), market.market_id)
+        t = market.get_time()
+        REC.add("hook", "market_before", market.market_id, t, market.market_id)
+        REC.add("fund.pre", market.market_id, t, self._funds(t))
         REC.depth += 1
         try:
             super()._trigger_event_before_step_for_market(market)
         finally:
             REC.depth -= 1
         after = self._states()
+        REC.add("fund.post", market.market_id, t, self._funds(t))
         REC.add("hookret", "market_before", market.market_id, before, after)
 
     def _trigger_event_after_step_for_market(self, market):
